@@ -45,7 +45,8 @@ CHECKS = {
    text="Lean 4 theorem `C17.strip_eq_reroot`: for every variable and every well-shaped tree the model of IdentifierStripper equals "
         "re-rooting on the (root, segments) view of paths (Spec.Reroot), proved by recursion along owner chains; absent_id; "
         "strip_eq_reroot_expr for every typed AST and identifier. Model run against expression_relative_to_identifier on paths of "
-        "depth 1..4 in every operand context x 7 variable names (plain field, inner segment, namespaced).",
+        "depth 1..4 in every operand context x 7 variable names (plain field, inner segment, namespaced); the correspondence is repeated on trees an application has already USED "
+        "(every computed attribute of every node read - py_val, full_name -, the tree hashed, printed, compared, traversed).",
    note="Trusted: Lean kernel, standard axioms, Spec/Reroot.lean, harness.",
    design="§6 C17", technique="Lean 4 proof (structural recursion along paths) + differential correspondence"),
  "C05": dict(
@@ -122,7 +123,8 @@ CHECKS = {
         "(including ones that raised) a probe gives what a fresh parser gives, because parse() resets every field the driver reads before reading "
         "it (reset_clean; the driver started on a dirty instance would misbehave in the model). Executed: random histories on shared / partly "
         "shared / new instances vs the model's parse and vs a process that never parsed anything, interleaved tokenizers, AliasRewriter with "
-        "used instances, probe digests under 5-10 PYTHONHASHSEED values and three import orders.",
+        "used instances, probe digests under 5-10 PYTHONHASHSEED values and three import orders; every failing text parsed two and three times on one lexer / one parser / both "
+        "(tokenising errors directly after a complete expression); long runs of one kind of failing input; every built-in called with 0-4 arguments.",
    note="Trusted: Lean kernel, standard axioms, harness. Partial: hash seed, import order, class-level / module-level state and SLY's table construction are runtime facts, "
         "covered by execution only; the LR driver is abstracted to 'runs from the reset configuration'.",
    design="§6 C20", technique="Lean 4 proof (induction over schedules / histories of an explicit instance state machine) + differential histories + fresh-process reference + subprocess digests"),
@@ -195,7 +197,8 @@ CHECKS = {
         "and every row inside semOkDj the compiled SQL selects the row iff OData's semantics makes the filter true), dj_never_leaks, dj_translates (Props/C02.lean when present). "
         "Executed on every run: typed filters as TEXT through apply_odata_query (QuerySet and Manager) on in-memory SQLite, ids compared row by row with Spec.evalB and with the "
         "environment model (150 000+ (filter,row) pairs), visitor outcome classes compared with the model, case-twin sequences; numeric stream (floor / ceiling / round of a fractional "
-        "column, with and without NULL) judged against Spec/NumFn.lean; date stream judged against Spec/DateSem.lean (Props/DateOrder.lean).",
+        "column, with and without NULL) judged against Spec/NumFn.lean; date stream judged against Spec/DateSem.lean (Props/DateOrder.lean); null guards joined with a comparison on the same operand "
+        "under every negating context; named-parameter calls against the positional call; a pattern stream (matchesPattern, plain-text and anchored patterns over rows differing only in letter case, harness oracle re.search).",
    note="Trusted: Lean kernel, standard axioms, Spec/ODataSem, Spec/SqliteSem + Spec/OrmSql (environment models, validated each run), harness. Known findings (excluded by semOkDj, counted, Lean-characterised): "
         "LIKE case folding on SQLite, Concat's COALESCE, Django not parenthesising negated / '('-initial operands of = / <>. The Django tests are not collected by the pinned command; "
         "they were run by hand after every fix (98 passed). fix: 4813a75 3d0299d e93080a.",
@@ -205,7 +208,8 @@ CHECKS = {
         "orm_core_agree (ORM and Core build the same tree for every typed filter), keyword_case (TRUE / True / true), sa_never_leaks, sa_translates. Executed on every run: typed filters as "
         "TEXT through apply_odata_query(select(Model)), apply_odata_query(session.query(Model)) and apply_odata_core(select(table)) on in-memory SQLite: the three entry styles must agree, "
         "ids compared row by row with Spec.evalB and the environment model (170 000+ pairs), upper-case Boolean keywords, case-twin sequences in one process; numeric stream (floor / ceiling / "
-        "round of a fractional column) judged against Spec/NumFn.lean, date stream against Spec/DateSem.lean (floor on a NULL cell is skipped: SQLAlchemy's pysqlite floor() fallback raises on NULL - environment).",
+        "round of a fractional column) judged against Spec/NumFn.lean, date stream against Spec/DateSem.lean (floor on a NULL cell is skipped: SQLAlchemy's pysqlite floor() fallback raises on NULL - environment); "
+        "null guards under negating contexts; a pattern stream (matchesPattern, plain-text and anchored patterns over rows differing only in letter case, harness oracle re.search).",
    note="Trusted: as C02. Known findings: LIKE case folding, wildcards in a computed pattern, div is true division (pinned structurally by the suite); indexof / concat use functions SQLite lacks (outside the "
         "supported fragment on SQLite). fix: 7c0cf2f e81d1f7 235cac7 2c1d307.",
    design="§6 C03", technique="Lean 4 proof over visitor model + environment model + tie theorems + differential execution through the three real entry styles"),
@@ -214,7 +218,8 @@ CHECKS = {
         "sa_params - the bound parameters of a successful translation are exactly the filter's literals in order; dj_skeleton / sa_skeleton - two filters that differ only in literal values "
         "translate to trees with the same skeleton. Tie theorems: every literal handler's return expression, re-extracted from the source on every run, is Value(...) / literal(...) "
         "(orm_literals_are_parameters). Executed: model parameters found among the real compiled parameters for every well-typed filter; 28 templates x literal pairs of every kind and in-lists of "
-        "3 / 101 / 120+ elements through the four shorthand entry styles - compiled SQL (post-compile parameters rendered) identical, values only in the parameter list.",
+        "3 / 101 / 120+ elements through the four shorthand entry styles - compiled SQL (post-compile parameters rendered) identical, values only in the parameter list; plain-text against "
+        "regex-metacharacter patterns; for every environment variable the library's source reads (none on the pinned tree) the same judge in a process of its own with the variable set.",
    note="Trusted: Lean kernel, standard axioms, harness; that Value()/literal() compile to placeholders is Django's / SQLAlchemy's behaviour, observed on the compiled statements. Known finding: autoescape "
         "adds ESCAPE '/' only for literal substrings with a wildcard (Lean witness kf_autoescape; consequence of fix e81d1f7).",
    design="§6 C08", technique="Lean 4 proof (parameters = literals, skeleton invariance, by structural induction with handler plans) + tie theorems on literal-handler source + differential compilation through the real shorthands"),
